@@ -10,7 +10,8 @@ from .c08 import FAMS
 PROP = 'C09'
 MODULE = 'WaveletsVerif.Properties.C09'
 THEOREMS = ['WV.C09.hasDerivAt_smoothmag', 'WV.C09.smoothmag_deriv_at_zero', 'WV.C09.r_ge_bias', 'WV.C09.ratio_le_one', 'WV.C09.ratio_le_one_im',
-            'WV.C09P.pool_up_adjoint', 'WV.C09P.scat1_backward_adjoint']
+            'WV.C09P.pool_up_adjoint', 'WV.C09P.scat1_backward_adjoint',
+            'WV.C09Q.block1_adjoint', 'WV.C09Q.block2_adjoint', 'WV.C09Q.scat2_backward_adjoint']
 
 
 def dirderiv(f, x, v, eps):
